@@ -215,7 +215,8 @@ func (cache *dirCache) retrieveFiles(target *core.BuildTarget, cacheDir string, 
 	}
 	if cache.Compress {
 		log.Debug("Retrieving %s: %s from compressed cache", target.Label, cacheDir)
-		return true, cache.retrieveCompressed(target, cacheDir)
+		err := cache.retrieveCompressed(target, cacheDir)
+		return err == nil, err
 	}
 	for _, out := range outs {
 		realOut, err := cache.ensureRetrieveReady(target, out)
